@@ -159,6 +159,8 @@ def _all_specs():
                 for variant in ('core', 'edge', 'ext', 'nods'):
                     out.append((variant, D, mq, layout))
         for mq in (50, 1):
+            out.append(('sparse', 100, mq, layout))
+            out.append(('sparse', 1000, mq, layout))
             out.append(('ext', 0, mq, layout))
             out.append(('extsm', 1000, mq, layout))
     # second libraries (same records, cells renamed / partly renamed / not renamed)
@@ -222,6 +224,8 @@ def shards(tier):
                             out.append(('oc', layout, mq, bin_size, bpj, D, kt))
                 for D in b['edge_max_fragment_size']:
                     out.append(('edge', layout, mq, bin_size, D))
+                for D in ([100] if tier == 'quick' else [100, 1000]):
+                    out.append(('sparse', layout, mq, bin_size, D))
                 out.append(('gbc', layout, mq, bin_size))
             if mq == 50:                        # the default threshold of generate_commands: one BAM family only
                 out.append(('defaults', layout, mq))
@@ -603,6 +607,13 @@ def run_shard(shard, tier, acc):
     elif kind == 'edge':
         _, layout, mq, bin_size, D = shard
         _run_edge(acc, tier, layout, mq, bin_size, D)
+    elif kind == 'sparse':
+        # coverage gaps wider than a job: sites in stretches which no alignment overlaps, every job split
+        _, layout, mq, bin_size, D = shard
+        for bpj in range(1, _nbins(layout, bin_size) + 1):
+            base = {'fn': 'obtain_counts', 'bam': ['sparse', D, mq, layout], 'bin_size': bin_size, 'bins_per_job': bpj,
+                    'max_fragment_size': D, 'key_tags': None, 'min_mq': mq, 'kwargs': dict(KWARGS), 'threads': 4}
+            _explore_orders(acc, base, tier, judge, order_set=lambda n: [tuple(range(n - 1, -1, -1))])
     elif kind == 'conformance':
         _run_conformance(acc, tier)
     else:
